@@ -304,7 +304,7 @@ def run(chk):
         for fmt in [fmtlib.DEFAULT_FMT] + axes[:8]:
             one(files, fmt, "corpus:" + name)
     # 2. generated projects x options
-    n = 1400 if thorough else 230
+    n = 6000 if thorough else 1200
     plan = [(CLEAN, 0.62), (CLEAN + ["non_ascii"], 0.12), (CLEAN + ["same_line"], 0.08), (CLEAN + ["lbrace_comment", "import_arg_comment"], 0.08),
             (CLEAN + ["multiline_comments"], 0.06), (["newline_gaps"], 0.04)]
     for i in range(n):
@@ -325,7 +325,7 @@ def run(chk):
         for j, fmt in enumerate(opts):
             one(files, fmt, "gen:%s" % "+".join(c for c in cls if c not in CLEAN), e2e=(i % (4 if thorough else 6) == 0 and j == 0))
     # 3. line assembly on arbitrary chunk lists
-    join_tie(ctx, rng, 3000 if thorough else 500, dist)
+    join_tie(ctx, rng, 20000 if thorough else 3000, dist)
     ctx.stop()
     chk.cov["rule"] = ("corpus witnesses x 9 option sets; seeded grammar-based projects (main.asm, optionally an imported lib.asm) over the whole "
                        "statement grammar with block/line comments in every trivia position, x random formatter options plus one enumerated "
